@@ -14,6 +14,22 @@ CLAIMS = {
     text="Order conditions of every rooted tree up to p (and failure at p+1), embedded-estimator orders and row sums are Coq theorems over the tableau regenerated from the Rust constants on every run; universally quantified over trees via a proved-complete enumeration.",
     technique="Coq proof: rational order-condition certificates (vm_compute + enumeration completeness) over constants translated from source",
     design="3/C02", partial=False),
+ "C03": dict(
+    text="Coq theorems (real-arithmetic semantics, any kernel/right-hand side/callback): accepted abscissae move strictly toward xend and never pass it, Success implies x = xend; tied to /repo by bit-exact replay of the extracted model over the configuration sweep, with the property's clauses (incl. evaluation times) checked on the implementation's call log.",
+    technique="Coq proof of skeleton invariants over R + bit-exact model/implementation correspondence",
+    design="3/C03", partial=True),
+ "C11": dict(
+    text="Coq theorems: step-budget count and bit-identical budget prefix (any number type), max_step bound with the 1% landing stretch (real semantics, any kernel); tied to /repo by bit-exact replay with random max_step/first_step/max_steps.",
+    technique="Coq proof of skeleton invariants + bit-exact correspondence",
+    design="3/C11", partial=True),
+ "C12": dict(
+    text="Coq theorems: the default handler is passive unless an event is terminal; two passive observers see literally the same solver trajectory (any number type, kernel, callbacks); tied to /repo by bit-exact replay of option-subset groups.",
+    technique="Coq proof (relational invariant over the skeleton) + bit-exact correspondence",
+    design="3/C12", partial=False),
+ "C18": dict(
+    text="Coq theorems for the four explicit solvers (any number type, right-hand side, callback): nfev equals the number of logged right-hand-side evaluations, naccpt <= nstep (RK4: =); tied to /repo by bit-exact replay comparing counters with recorded calls.",
+    technique="Coq proof of counter invariants + bit-exact correspondence",
+    design="3/C18", partial=True),
 }
 
 NA_REASON = "check not built yet in this revision (planned in DESIGN.md §5); not claimed until its theorem file and correspondence exist"
